@@ -12,9 +12,10 @@
 //     types incl. reference_wrapper arguments, etl::forward and etl::forward_like result types.
 // Nothing here is sampled: the element-kind combinations are enumerated completely.
 //
-// API gaps (do not compile): get<I> / apply / make_from_tuple / tuple_cat on an rvalue pair or tuple that has a
-// reference element; tuple_cat with move-only elements; tuple_cat of >= 2 arguments one of which is a non-const
-// lvalue; assignment of pairs with reference elements; everything listed in c20_tuple_states.cpp.
+// API gaps (do not compile): assignment of pairs with reference elements; everything listed in c20_tuple_states.cpp.
+// (Round 2: get<I> / apply / make_from_tuple on an rvalue pair or tuple with a reference element are exercised here
+// now; tuple_cat with move-only elements, with reference elements in rvalue arguments and with several non-const
+// lvalues is exercised in c20_tuple_forward.cpp.)
 #include "c20_common.hpp"
 
 #include <etl/utility.hpp> // first (see c20_tuple_states.cpp)
@@ -217,9 +218,10 @@ struct Combo {
     static constexpr bool has_ref  = (std::is_reference_v<E> || ...);
     static constexpr bool has_const = (std::is_const_v<E> || ...); // swap of const elements is ill-formed on both sides (hard error, not SFINAE)
     static constexpr bool copyable = (std::is_copy_constructible_v<E> && ...);
-    // rvalue access compiles for a pair only through decltype (declared return type); for a tuple not at all
-    static constexpr bool rvalue_get_callable = !has_ref;
-    static constexpr bool rvalue_get_decltype = IsPair || !has_ref;
+    // round 2: rvalue access to pairs / tuples with reference elements compiles since get<I>(X&&) was repaired (it used
+    // to be an API gap and was skipped for every combination with an int& element)
+    static constexpr bool rvalue_get_callable = true;
+    static constexpr bool rvalue_get_decltype = true;
 
     static std::string name()
     {
